@@ -41,7 +41,9 @@ Step(e) ==
          /\ open' = open \ {<<e.g, e.n>>}
          /\ bad' = IF <<e.g, e.n>> \notin open THEN "return without call" ELSE bad
          \* C03: a call that returns a value returns the value generated for its own request
-         /\ c03' = Set(c03, e.err = "" /\ e.got # e.want, "a call returned a result that does not belong to its own request")
+         /\ c03' = Set(c03, (e.err = "" /\ e.got # e.want) \/ (Has(e, "noerr") /\ e.noerr /\ e.err # ""),
+                       IF e.err = "" THEN "a call returned a result that does not belong to its own request"
+                       ELSE "a call failed although the connection is intact and the peer answers every request")
          \* C04: after a connection loss: replies received completely are kept, everything else fails
          /\ c04' = Set(c04, Has(e, "mustok") /\ ((e.mustok /\ e.err # "") \/ (e.musterr /\ e.err = "")),
                        IF Has(e, "mustok") /\ e.mustok THEN "a call whose reply had been received completely returned an error"
